@@ -146,6 +146,33 @@ impl AObj {
         }
     }
 
+    /// like `to_object`, but a stream keeps its dictionary exactly as given (no Length maintenance)
+    pub fn to_object_raw(&self) -> Object {
+        match self {
+            AObj::Array(a) => Object::Array(a.iter().map(|o| o.to_object_raw()).collect()),
+            AObj::Dict(d) => {
+                let mut out = Dictionary::new();
+                for (k, v) in d {
+                    out.set(k.0.clone(), v.to_object_raw());
+                }
+                Object::Dictionary(out)
+            }
+            AObj::Stream(d, c) => {
+                let mut out = Dictionary::new();
+                for (k, v) in d {
+                    out.set(k.0.clone(), v.to_object_raw());
+                }
+                Object::Stream(Stream {
+                    dict: out,
+                    content: c.0.clone(),
+                    allows_compression: true,
+                    start_position: None,
+                })
+            }
+            other => other.to_object(),
+        }
+    }
+
     pub fn from_object(o: &Object) -> AObj {
         match o {
             Object::Null => AObj::Null,
